@@ -5,6 +5,8 @@ from .. import tlc, tlaparse, common, histrun
 from ..common import pviolation, bump
 
 PM, PN = 1.5, 7.0
+CVEC = np.array([1.0, 2.0, 4.0])
+VIEW_GRAD = {'M': [2.0, 3.0, 5.0], 'N': [5.0, 3.0, 2.0]}      # d(c @ view + view.sum()) / d v[i]
 X0 = 0.5
 FRESH = r'''
 import sys, json
@@ -30,6 +32,12 @@ class World:
         self.yN = optyx.Variable('y', lb=-5, ub=1)
         self.nN = self.pN * self.xN - self.xN
         self.hN = self.pN * self.xN * self.yN - self.yN ** 2
+        # same-named vectors in the two models, used through views that optyx gives the same display name ("v[0:3]")
+        # although they list the elements in different orders
+        self.vM = optyx.VectorVariable('v', 3, lb=0, ub=4)
+        self.vN = optyx.VectorVariable('v', 3, lb=-5, ub=1)
+        self.viewM = CVEC @ self.vM[:] + self.vM[:].sum()
+        self.viewN = CVEC @ self.vN[::-1] + self.vN[::-1].sum()
         self.obj = {1: self.pM, 2: self.xM, 3: self.nM, 4: self.pN, 5: self.xN, 6: self.nN}
         self.var = {1: self.xM, 2: self.xM, 3: self.xM, 4: self.xN, 5: self.xN, 6: self.xN}
         self.nfill = 0
@@ -58,6 +66,9 @@ def do(w, op):
         for what, have in (('compile_gradient', g), ('compile_jacobian', j)):
             if abs(have - want) > 1e-12:
                 return '%s of %s returns %r, expected %r' % (what, name(arg), have, want)
+        d = view_gradient(w, 'M' if arg == 3 else 'N')
+        if d:
+            return d
         return None
     if kind == 'HessCompile':
         e, vs, p = (w.hM, [w.xM, w.yM], PM) if arg == 3 else (w.hN, [w.xN, w.yN], PN)
@@ -241,6 +252,18 @@ def buffer_histories(report):
     return [list(h) for h in sorted(hs)]
 
 
+def view_gradient(w, m):
+    from optyx.core import compiler, autodiff
+    e, v = (w.viewM, w.vM) if m == 'M' else (w.viewN, w.vN)
+    pt = {x.name: 0.5 for x in v}
+    sym = [float(np.asarray(autodiff.gradient(e, x).evaluate(pt))) for x in v]
+    cg = np.asarray(compiler.compile_gradient(e, list(v))(np.full(3, 0.5)), dtype=float).reshape(-1).tolist()
+    for what, have in (('gradient()', sym), ('compile_gradient', cg)):
+        if not np.allclose(have, VIEW_GRAD[m], rtol=0, atol=1e-12):
+            return '%s of %s\'s expression over a view returns %r, expected %r' % (what, m, have, VIEW_GRAD[m])
+    return None
+
+
 def name(i):
     return {1: "M's parameter p", 2: "M's variable x", 3: "M's expression p*x + x**2", 4: "N's parameter p", 5: "N's variable x", 6: "N's expression p*x - x"}[i]
 
@@ -257,6 +280,7 @@ def observe_m(w):
     out['hess'] = float(np.asarray(autodiff.compile_hessian(w.nM, [w.xM])(x)).reshape(-1)[0])
     out['hess_mixed'] = [float(v) for v in np.asarray(autodiff.compile_hessian(w.hM, [w.xM, w.yM])(np.array([X0, 0.25]))).reshape(-1)]
     out['degree'] = str(w.nM.degree)
+    out['view_gradient'] = view_gradient(w, 'M')
     with warnings.catch_warnings():
         warnings.simplefilter('ignore')
         s = optyx.Problem().minimize((w.xM - w.pM) ** 2 + w.pM).solve()
